@@ -9,6 +9,7 @@ import (
 	"path/filepath"
 	"reflect"
 	"strings"
+	"sync"
 	"unsafe"
 
 	"gosym/smt"
@@ -104,6 +105,7 @@ type Interp struct {
 	NoMerge bool
 	expApps []expApp
 	conc    *concreteCtx
+	cfgs    map[*ssa.Function]*fnCFG
 }
 
 type WriteEvent struct {
@@ -1555,6 +1557,7 @@ func hasPointers(t types.Type) bool {
 }
 
 var growCache = map[[4]int]int{}
+var growMu sync.Mutex
 
 // grownCap asks the real runtime what capacity append produces for a slice with the given
 // element size / pointer-ness, length and capacity when n more elements are appended.
@@ -1564,6 +1567,8 @@ func grownCap(elemSize int, ptrs bool, l, c, n int) int {
 		p = 1
 	}
 	key := [4]int{elemSize*2 + p, l, c, n}
+	growMu.Lock()
+	defer growMu.Unlock()
 	if r, ok := growCache[key]; ok {
 		return r
 	}
